@@ -135,7 +135,7 @@ func Load(repoDir, goarch string, tests bool) (*Program, error) {
 		if fn.Blocks == nil && fn.Synthetic == "" {
 			// external (no body)
 		}
-		if fn.Synthetic != "" && fn.Syntax() == nil && !PromoWrapper[fn] {
+		if fn.Synthetic != "" && fn.Syntax() == nil && !PromoWrapper[fn] && !BoundAdopted[fn] {
 			// wrappers/thunks: analysed through their targets
 		} else {
 			file := ""
